@@ -133,6 +133,43 @@ def run(ctx):
             nreq, d, _ = schemes.correspondence(ctx, cls, st.get("grammar", [])[:200], pairs)
             evals += nreq
             diffs.extend(d[:5])
+            # the model and the implementation differ on a pair and no law has failed yet: search around that pair for a
+            # triple on which the property itself fails (third elements: the families of the two versions, then the pool)
+            if d and nviol == 0:
+                found = False
+                for df in [x for x in d if x.get("request", "").startswith("vpair")][:8]:
+                    try:
+                        pa, pb = cls(df["inputs"][0]), cls(df["inputs"][1])
+                    except Exception:  # noqa
+                        continue
+                    third = []
+                    for t in (pa.string, pb.string):
+                        for fam in dense.family_texts(cls, t):
+                            for x in fam:
+                                try:
+                                    third.append(cls(x))
+                                except Exception:  # noqa
+                                    pass
+                    for pc in third + values[:150]:
+                        for x, y, z in itertools.permutations((pa, pb, pc), 3):
+                            if excluded(name, x, y) or excluded(name, y, z) or excluded(name, x, z):
+                                continue
+                            evals += 1
+                            try:
+                                bad = triple_laws(name, x, y, z)
+                            except Exception as e:  # noqa
+                                bad = [f"comparison raised {e!r}"]
+                            if bad:
+                                violations.append(dict(kind="counterexample", stage="search",
+                                                       what=f"{name}: the law '{bad[0]}' fails on ({x.string!r}, {y.string!r}, {z.string!r}) (found from a model/implementation difference)",
+                                                       inputs=dict(version_class=name, a=x.string, b=y.string, c=z.string), observed=bad))
+                                nviol += 1
+                                found = True
+                                break
+                        if found:
+                            break
+                    if found:
+                        break
         if triples and len(samples) < 10:
             a, b, c = triples[len(triples) // 3]
             samples.append(dict(version_class=name, triple=[a.string, b.string, c.string]))
